@@ -20,7 +20,7 @@ RULE = ("builder calls enumerated over literal lists (length 0..5 quick / 0..7 t
 ASSUMPTIONS = ["the truth-table engine (self-checked against a naive evaluator at start-up)",
                "mapping atoms are read through the group's own index->variable call (judged by C11)"]
 REQUIRED = ["cnf_builder_calls", "opb_builder_calls", "mapping_calls", "normalize_calls",
-            "generator_arguments", "range_arguments", "tuple_arguments", "wide_parity_calls", "wide_binary_mappings"]
+            "generator_arguments", "range_arguments", "descending_arguments", "unchecked_builder_calls", "tuple_arguments", "wide_parity_calls", "wide_binary_mappings"]
 
 OPS = {"<=": operator.le, ">=": operator.ge, "<": operator.lt, ">": operator.gt,
        "==": operator.eq, "!=": operator.ne}
@@ -48,10 +48,12 @@ def containers(lits):
     """(kind, factory) -- factory builds a fresh argument each call."""
     out = [("list", lambda: list(lits)), ("tuple", lambda: tuple(lits)),
            ("generator", lambda: (l for l in lits))]
-    if len(lits) >= 1 and all(lits[i + 1] - lits[i] == 1 for i in range(len(lits) - 1)):
-        lo, hi = lits[0], lits[-1] + 1
-        if not (lo <= 0 < hi):
-            out.append(("range", lambda: range(lo, hi)))
+    if len(lits) >= 1:
+        step = lits[1] - lits[0] if len(lits) > 1 else 1
+        if step != 0 and all(lits[i + 1] - lits[i] == step for i in range(len(lits) - 1)):
+            rg = range(lits[0], lits[-1] + (1 if step > 0 else -1), step)
+            if 0 not in rg and list(rg) == list(lits):
+                out.append(("range", lambda: rg))
     return out
 
 
@@ -91,6 +93,18 @@ def judge(ctx, who, F, n, pred, key, args_repr):
         ctx.violation(who + ":numvar", "builder raised the variable count beyond its literals: %s"
                       % args_repr, numvar=F.number_of_variables(), expected_max=n)
         return
+    mentioned = 0
+    for con in F:
+        for t in con:
+            if isinstance(t, int) and not isinstance(t, bool) and not hasattr(F, "_constraints"):
+                mentioned = max(mentioned, abs(t))
+            elif isinstance(t, tuple):
+                mentioned = max(mentioned, abs(t[1]))
+    if F.number_of_variables() < mentioned:
+        ctx.violation(who + ":numvar-below-its-literals", "%s: the formula mentions variable %d but declares %d variable(s); "
+                      "the next new variable would get an index the constraint already uses"
+                      % (args_repr, mentioned, F.number_of_variables()))
+        return
     got = tt.models_of_n(F, n)
     exp = expected_set(n, pred)
     if got != exp:
@@ -114,6 +128,57 @@ def call_builder(ctx, who, F, fn, arg, *rest):
     return True
 
 
+def unchecked_calls(ctx, cls, K, kind, make, lits, n, L):
+    """The same builders with check=False, the documented way for a caller that has declared its variables already
+    (the formula has its n variables before the call)."""
+    lits_t = tuple(lits)
+
+    def declared():
+        F = fresh(ctx, K)
+        F.update_variable_number(n)
+        return F
+    for const in range(-1, L + 2):
+        for op, pyop in OPS.items():
+            pred = (lambda a, c=const, o=pyop: o(nsat(a, lits), c))
+            rep = "%s.%%s(%s %r, %r, %d, check=False)" % (cls, kind, lits, op, const)
+            if cls == "CNF":
+                F = declared()
+                st, val = ctx.call(F.add_linear, make(), op, const, check=False)
+                if st == "exc":
+                    ctx.violation("CNF.add_linear:unchecked:raises:%s" % type(val).__name__, "%s raised %r" % (rep % "add_linear", val))
+                else:
+                    ctx.count("unchecked_builder_calls")
+                    judge(ctx, "CNF.add_linear[%s]:unchecked" % op, F, n, pred, ("lin-u", cls, lits_t, kind, op, const), rep % "add_linear")
+            name = {"<=": "cardinality_leq", ">=": "cardinality_geq", "==": "cardinality_eq", "!=": "cardinality_neq"}.get(op)
+            if name:
+                F = declared()
+                st, val = ctx.call(getattr(F, name), make(), const, check=False)
+                if st == "exc":
+                    ctx.violation("%s.%s:unchecked:raises:%s" % (cls, name, type(val).__name__), "%s raised %r" % (rep % name, val))
+                else:
+                    ctx.count("unchecked_builder_calls")
+                    judge(ctx, "%s.%s:unchecked" % (cls, name), F, n, pred, ("card-u", cls, lits_t, kind, op, const), rep % name)
+    for name, pred in (("add_loose_majority", lambda a: 2 * nsat(a, lits) >= L), ("add_strict_majority", lambda a: 2 * nsat(a, lits) > L),
+                       ("add_loose_minority", lambda a: 2 * nsat(a, lits) <= L), ("add_strict_minority", lambda a: 2 * nsat(a, lits) < L)):
+        F = declared()
+        st, val = ctx.call(getattr(F, name), make(), check=False)
+        if st == "exc":
+            ctx.violation("%s.%s:unchecked:raises:%s" % (cls, name, type(val).__name__), "%s.%s(%s %r, check=False) raised %r" % (cls, name, kind, lits, val))
+        else:
+            ctx.count("unchecked_builder_calls")
+            judge(ctx, "%s.%s:unchecked" % (cls, name), F, n, pred, (name + "-u", cls, lits_t, kind),
+                  "%s.%s(%s %r, check=False)" % (cls, name, kind, lits))
+    for const in (0, 1):
+        F = declared()
+        st, val = ctx.call(F.add_parity, make(), const, check=False)
+        if st == "exc":
+            ctx.violation("%s.add_parity:unchecked:raises:%s" % (cls, type(val).__name__), "%s.add_parity(%s %r, %d, check=False) raised %r" % (cls, kind, lits, const, val))
+        else:
+            ctx.count("unchecked_builder_calls")
+            judge(ctx, cls + ".add_parity:unchecked", F, n, lambda a, c=const: nsat(a, lits) % 2 == c,
+                  ("parity-u", cls, lits_t, kind, const), "%s.add_parity(%s %r, %d, check=False)" % (cls, kind, lits, const))
+
+
 # --------------------------------------------------------------------------
 def case_card(ctx, cls, L, shift, repeated=False):
     """add_linear / cardinality_* / majorities / parity on one length."""
@@ -127,10 +192,22 @@ def case_card(ctx, cls, L, shift, repeated=False):
             rep.append(p[:-1] + [p[0]])       # repeated literal
             rep.append(p[:-1] + [-p[0]])      # opposite literal
         pats = rep
-    for lits in pats:
+    if not repeated and L >= 2:
+        # the same literals listed downwards, and every second variable (both ways): arithmetic progressions that a
+        # caller writes as range(n, 0, -1), range(1, 2n, 2), range(-1, -2n, -2)
+        ups = [i + 1 + shift for i in range(L)]
+        odd = [2 * i + 1 + shift for i in range(L)]
+        pats += [ups[::-1], [-v for v in ups][::-1], odd, odd[::-1], [-v for v in odd], [-v for v in odd][::-1]]
+    n0 = n
+    for ipat, lits in enumerate(pats):
         lits_t = tuple(lits)
+        n = max([n0] + [abs(l) + 1 for l in lits])
+        if any(lits[i + 1] < lits[i] for i in range(len(lits) - 1)) and len(set(lits)) == len(lits):
+            ctx.count("descending_arguments")
         for kind, make in containers(lits):
             ctx.count(kind + "_arguments")
+            if ipat % 3 == 0 or len(pats) - ipat <= 6:
+                unchecked_calls(ctx, cls, K, kind, make, lits, n, L)
             # cardinality against every constant, every operator
             for const in range(-2, L + 3):
                 for op, pyop in OPS.items():
